@@ -16,7 +16,7 @@ from wire import quicref as Q
 
 BASE = dict(SuiteSet='{"1301","1302","1303","1304"}', OfferFirst='{"same","other","grease"}',
             Splits='{<<1>>,<<1,2>>,<<2,1>>,<<3,1,2>>,<<2,3,1>>,<<3,2,1>>}', MaxApp="2", MaxGen="3", AllowEarlyGuess="FALSE",
-            Retries="BOOLEAN", ZeroRtts="BOOLEAN", EmitOn="FALSE", AllowLate="FALSE", AllowLateAcrossKu="FALSE", NoisePhases="{}", AllowRetx="FALSE")
+            Retries="BOOLEAN", ZeroRtts="BOOLEAN", EmitOn="FALSE", AllowLate="FALSE", AllowLateAcrossKu="FALSE", NoisePhases="{}", AllowRetx="FALSE", ExtraShapes="{}")
 INV = ["OutputIsPrefix", "CryptoOk", "EpochOk", "KeysOk", "DoneExact"]
 DEFS = "DoneExact == Done => DgramsEqualStreamData"
 CIDLENS = [0, 1, 4, 8, 16, 20]
@@ -30,7 +30,7 @@ def params_for(rng, quick):
                 l2=rng.choice([{}, {}, {}, {"ip6_ext": 1}, {"ip4_opts": 1}, {"eth_pad": 1}, {"eth_fcs": 1}, {"vlan": 1}, {"qinq": 1}]),
                 init_token=rng.choice([0, 0, 5, 37]), len_width=rng.choice([None, 2, 4, 8]),
                 migrate_at=rng.choice([None, None, None, 5, 7]), ts_equal=rng.random() < 0.25, own_noise=rng.random() < 0.25,
-                ts_step=rng.choice([None, None, 1, 2]), ts_sub=rng.choice([None, None, None, None, 500, 700]), retire_prior=rng.random() < 0.35, same_ports=rng.random() < 0.15, sport=rng.choice([443, 443, 443, 4433, 50000]))        # capture times 1 or 2 microseconds apart (a burst) are still distinct times
+                ts_step=rng.choice([None, None, 1, 2]), ts_sub=rng.choice([None, None, None, None, 500, 700]), retire_prior=rng.random() < 0.35, big_dgrams=rng.random() < 0.12, ts_zero=rng.random() < 0.08, stale_out=rng.random() < 0.1, same_ports=rng.random() < 0.15, sport=rng.choice([443, 443, 443, 4433, 50000]))        # capture times 1 or 2 microseconds apart (a burst) are still distinct times
 
 
 def _sublist(a, b):
@@ -147,6 +147,14 @@ def run(chk):
           > (2 if b["twoPkts"] else 1) * (2 if b["retry"] else 1)]
     rng.shuffle(rb)
     behs += rb[: 150 if quick else 2500]
+    # late Handshake / Initial acknowledgements coalesced in front of 1-RTT data, CONNECTION_CLOSE followed by the peer's data still in flight
+    r8_ = tlc.run("Quic", dict(BASE, ExtraShapes="LateShapes", MaxApp="2", SuiteSet='{"1301","1303"}', Splits='{<<1>>}', ZeroRtts="{FALSE}"), invariants=INV,
+                  view="View", timeout=900, extra_defs=DEFS)
+    chk.tlc("Quic exhaustive with late Handshake / Initial packets and CONNECTION_CLOSE", r8_)
+    lb = gen(chk, dict(ExtraShapes="LateShapes", MaxApp="4", Splits='{<<1>>}'), 25 if quick else 300, chk.seed + 12)
+    lb = [b for b in lb if any(pk["t"] in ("H", "I") or any(f["a"] == "close" for f in pk["frames"]) for dg in b["hist"][5:] for pk in dg["pkts"])]
+    rng.shuffle(lb)
+    behs += lb[: 150 if quick else 2500]
     kfb = [b for b in gen(chk, dict(AllowEarlyGuess="TRUE", ZeroRtts="{TRUE}", OfferFirst='{"other","grease"}', MaxApp="1"), 5 if quick else 40, chk.seed + 2)
            if b["kf"]]
     rng.shuffle(behs)
